@@ -2,6 +2,7 @@
 import itertools
 
 from .. import gen, solvers
+from . import c01_code
 from ..solvers import Run, execute, judge_optimal, keys, lean_case, tie
 from ..sr import build_input, canon_solution
 
@@ -104,6 +105,7 @@ def corpus(ctx, res):
     items = [(c, a) for c in CORPUS for a in ALGOS]
     judge(ctx, res, execute(ctx, items))
     gen_all_check(ctx, res, CORPUS)
+    c01_code.corpus_code(ctx, res, CORPUS)
     # witnesses of recorded findings: reported as KNOWN-FINDING while they still fail
     for case, algo, fid in solvers.known_witnesses(ID, ["thl"]):
         for r in execute(ctx, [(case, algo)]):
@@ -116,6 +118,7 @@ def run(ctx, res):
     for i in range(0, len(items), 4000):
         judge(ctx, res, execute(ctx, items[i : i + 4000]))
     gen_all_check(ctx, res, cases[: ctx.budget(150, 3000)])
+    c01_code.run_code(ctx, res)
 
 
 def fails_one(ctx):
